@@ -268,11 +268,27 @@ def run(oc, tier, seed, model_available, escalate):
                 if rng.random() < 0.5:
                     t_[ho] ^= 0x21          # the stored hash damaged as well: nothing vouches for a repair
             content1, track = bytes(c_), bytes(t_)
+        elif i % 10 == 9 and len(tl) >= 1:
+            # directed: correcting only erasures, syndrome check on (--no_fast_check), the file intact, ONE wrong (non-erasure) symbol in a
+            # stored parity and no erasure symbol anywhere in that block: the check fails, the decoder is asked to correct erasures only and
+            # finds none (the facade returns the block as it is), the hash vouches for the block - "repaired with matching hash but with ecc
+            # check error": the bytes written are the input bytes
+            P.erasures, P.only_erasures, P.no_fast_check = False, True, True
+            cand_b = [j_ for j_, ((off_, ln_, k_), ho_, po_, pl_) in enumerate(tl) if pl_ >= 1 and
+                      P.erasure_symbol not in content0[off_:off_ + ln_] and P.erasure_symbol not in track[po_:po_ + pl_]]
+            if cand_b:
+                (off, ln, k), ho, po, pl = tl[rng.choice(cand_b)]
+                t_ = bytearray(track)
+                q = po + rng.randrange(pl)
+                t_[q] = rng.choice([x for x in range(256) if x not in (P.erasure_symbol, t_[q])])
+                track = bytes(t_)
+                content1 = content0
+                fk, tk = "none", "one-parity-error-under-only-erasures"
         elif tk == "truncate":
             track = track[:rng.randint(0, len(track))]
         else:
             track = bytes(damage_bytes(rng, track, tk))
-        sizechg = rng.choice(["no", "no", "no", "grow", "shrink"]) if (tk not in ("erasures_beyond_bound", "parity_swap") and not bailout) else "no"
+        sizechg = rng.choice(["no", "no", "no", "grow", "shrink"]) if (tk not in ("erasures_beyond_bound", "parity_swap", "one-parity-error-under-only-erasures") and not bailout) else "no"
         if sizechg == "grow":
             content1 += bytes(rng.randrange(256) for _ in range(rng.choice([1, 20, 300])))
         elif sizechg == "shrink" and content1:
